@@ -206,6 +206,14 @@ let handle = function
     let c = if roundtrip = "1" then setstate (getstate c) else c in
     let sat = function [BoolVe b] -> b | _ -> true in
     L [A (if check sat c then "1" else "0"); A (if exact sat c then "1" else "0")]
+  | L [A "z3_batch_eval"; A n; L outcomes; L frames] ->
+    (* outcomes: per check "1" sat, "0" unsat, "x" gives up; frames: number of assertions per frame, top first *)
+    let outs = Array.of_list (List.map (function A "1" -> Some true | A "0" -> Some false | _ -> None) outcomes) in
+    let chk k = let i = int_of_nat k in if i < Array.length outs then outs.(i) else Some false in
+    let st = List.map (function A c -> List.init (int_of_string c) (fun _ -> O) | _ -> failwith "frame") frames in
+    let (o, st') = batch_eval (nat_of_int (int_of_string n)) chk st in
+    L [(match o with Values k -> A (string_of_int (int_of_nat k)) | GaveUp -> A "gaveup");
+       L (List.map (fun f -> A (string_of_int (List.length f))) st')]
   | L [A "fe_split_fe"; st] -> L (List.map fe_sexp (split_fe (fe_of st)))
   | L [A "meta"; e] ->
     let x = expr_of e in
